@@ -627,6 +627,20 @@ Proof.
   - apply agrees_ret. exact Hq.
 Qed.
 
+(* the same test with its operands the other way round (`24 == new._hour_of_day`) *)
+Lemma opt_eqb_Qeq_sym a b : opt_eqb Qeq_bool a b = opt_eqb Qeq_bool b a.
+Proof.
+  destruct a as [x|], b as [y|]; cbn [opt_eqb]; try reflexivity.
+  apply Bool.eq_true_iff_eq. rewrite !Qeq_bool_iff. split; intros H; symmetry; exact H.
+Qed.
+Lemma norm_agrees_sym md fl p p' fuel : tp_equiv p' p -> month_ok p ->
+  agrees fl fuel
+    (if opt_eqb Qeq_bool (Some (inject_Z HOURS_IN_DAY)) (s_hour_of_day (rep fl p'))
+     then ebind (py_TimePoint__tick_over fuel (cal_of md) (rep fl p')) (fun v => Ok v)
+     else Ok (rep fl p'))
+    (IOk (normalised md p) (norm_bound md p)).
+Proof. intros Hq Hm. rewrite opt_eqb_Qeq_sym. apply norm_agrees; assumption. Qed.
+
 Lemma normalised_agrees md fl p p' fuel : tp_equiv p' p -> month_ok p ->
   agrees fl fuel (py_TimePoint__normalised fuel (cal_of md) (rep fl p')) (IOk (normalised md p) (norm_bound md p)).
 Proof.
@@ -833,19 +847,22 @@ Proof.
   unfold py_TimePoint_add_truncated, add_truncated_i. code4_helpers. code6_helpers. cbv beta zeta.
   (* the opening: `new = self._copy(); if new._hour_of_day == 24: new._tick_over()`, or the same
      thing spelled `self._normalised()._copy()` *)
-  first
+  (* the defaulting of minute / second from the given time fields is independent of the opening
+     and may come before or after it: decide the three time fields first *)
+  destruct t as [th tm ts tdow tdom tdoy tw tz]. cbn [t_hour t_min t_sec t_dow t_dom t_doy t_week].
+  destruct th as [th|], tm as [tm|], ts as [ts|];
+    repeat (progress (cbn [is_none negb andb orb]; rewrite ?ebind_ok)); cbv zeta.
+  all: first
   [ rewrite gen4_copy, ebind_ok; cbv zeta;
     eapply agrees_bind with (P := month_ok);
-    [ apply norm_agrees; assumption
+    [ first [apply norm_agrees | apply norm_agrees_sym]; assumption
     | intros q n E; injection E as <- _; apply month_ok_normalised, Hm
     | clear p p' Hq Hm; intros p p' Hm Hq ]
   | eapply agrees_bind with (P := month_ok);
     [ apply normalised_agrees; assumption
     | intros q n E; injection E as <- _; apply month_ok_normalised, Hm
     | clear p p' Hq Hm; intros p p' Hm Hq; rewrite ?gen4_copy, ?ebind_ok; cbv zeta ] ].
-    destruct t as [th tm ts tdow tdom tdoy tw tz]. cbn [t_hour t_min t_sec t_dow t_dom t_doy t_week].
-    destruct th as [th|], tm as [tm|], ts as [ts|];
-      repeat (progress (cbn [is_none negb andb orb]; rewrite ?ebind_ok)); cbv zeta.
+    all: repeat (progress (cbn [is_none negb andb orb]; rewrite ?ebind_ok)); cbv zeta.
     8: do 4 apply agrees_ibind0.
     1-7: (eapply agrees_bind with (P := inv_time);
           [ apply agrees_bind_ret, to_hms_agrees, Hq
